@@ -41,6 +41,7 @@ type fanScenario struct {
 	plan    [][]fanOp
 	blockAt map[int]int // channel -> index of the transport Write that blocks
 	failAt  map[int]int // channel -> index of the transport Write that fails
+	failLen int         // that many consecutive transport Writes fail (0 means 1)
 	pauseAt map[int]int // channel -> index of the transport Write that waits until every item has been submitted
 	seed    int64
 	pace    int // >= 0: after every write wait until every channel but this one has put the item on the wire
@@ -87,6 +88,7 @@ func runFanScenario(sc fanScenario) fanResult {
 		}
 		if f, ok := sc.failAt[i]; ok {
 			conns[i].failAt = f
+			conns[i].failLen = sc.failLen
 		}
 		if p, ok := sc.pauseAt[i]; ok {
 			conns[i].pauseAt = p
@@ -374,12 +376,15 @@ func genC13(r *rngT, n int, tier string) {
 		sc := fanScenario{k: k, seed: r.Int63(), blockAt: map[int]int{}, failAt: map[int]int{}, pauseAt: map[int]int{}, pace: victim}
 		var ops []fanOp
 		badIdx := -1
+		run := 1 + r.Intn(5) // consecutive failing writes / unencodable items
 		for i := 0; i < nitems; i++ {
 			o := fanOp{kind: "mf"[r.Intn(2)], target: 'a'}
-			if mode == "bad" && i == 3+at {
-				// an item that cannot be encoded for the link, addressed to the victim only
+			if mode == "bad" && i >= 3+at && i < 3+at+run {
+				// items that cannot be encoded for the link, addressed to the victim only (a run of 1..5 in a row)
 				o = fanOp{kind: 'm', target: 't', ch: victim, bad: true}
-				badIdx = i
+				if badIdx < 0 {
+					badIdx = i
+				}
 			}
 			ops = append(ops, o)
 		}
@@ -388,6 +393,8 @@ func genC13(r *rngT, n int, tier string) {
 			sc.blockAt[victim] = at
 		case "fail":
 			sc.failAt[victim] = at
+			sc.failLen = run
+			badIdx = run
 		case "pause":
 			sc.pauseAt[victim] = at
 		}
